@@ -83,3 +83,19 @@ Proof.
   split; [vm_compute; reflexivity|]. split; [vm_compute; reflexivity|]. split; [vm_compute; reflexivity|].
   split; vm_compute; reflexivity.
 Qed.
+
+(* ... and a pure virtual with three provider NAMES of different priorities (busybox, the highest, is
+   chosen for app; tool also wants bash itself), next to a name with two versions *)
+Definition wpr (n v : string) (prio : N) (deps provs : list string) : pkg :=
+  {| p_name := n; p_version := v; p_origin := n; p_deps := deps; p_provides := provs; p_install_if := [];
+     p_prio := prio; p_pin := ""; p_repo := "https://repo0.example/x86_64" |}.
+Definition U_virtual : universe :=
+  [wpr "app" "1" 0 ["sh"; "c>1"] []; wpr "bash" "5.0" 10 [] ["sh"]; wpr "busybox" "1.0" 20 ["c"] ["sh"]; wpr "dash" "0.5" 0 [] ["sh"];
+   wpr "dash" "0.4" 0 [] []; wpr "c" "1.0" 0 [] []; wpr "c" "2.0" 0 [] []; wpr "tool" "1" 0 ["sh"; "bash"] []].
+Lemma virtual_example :
+  menvelope_b U_virtual ["tool"; "app"; "sh"] = true /\ envelope_b U_virtual ["tool"; "app"; "sh"] = false /\
+  resolve U_virtual ["tool"; "app"; "sh"] [] = Ok [1; 6; 2; 7; 0] /\
+  closed_b U_virtual ["tool"; "app"; "sh"] (pkgs_of U_virtual [1; 6; 2; 7; 0]) = true.
+Proof.
+  split; [vm_compute; reflexivity|]. split; [vm_compute; reflexivity|]. split; vm_compute; reflexivity.
+Qed.
